@@ -28,25 +28,43 @@ Local Open Scope Qc_scope.
 (* ---- the model ---- *)
 Definition body_vars (fp : flatprog) : list var := map ga_var (fp_body fp).
 
-(* [Some v]: the assignment is folded at this point with value v.  [strict] = the repaired
-   rule (value must not mention loop-body variables); strict = false is the old rule. *)
-Definition fold_value (strict : bool) (bv : list var) (F : smap) (g : gassign) : option expr :=
+(* three versions of the folding rule:
+   ROld  before "fix: do not fold initial constants that refer to variables changing in the loop"
+   RCur  the code as it is now in /repo
+   RFix  the rule of proposed_fixes/constants_init_reassign.diff (additionally: the variable has
+         a single initial assignment, was not read by an earlier kept initial assignment, and
+         its value mentions nothing that is assigned later in the initial part) *)
+Inductive rule := ROld | RCur | RFix.
+Definition strict (r : rule) : bool := match r with ROld => false | _ => true end.
+
+(* [Some v]: the assignment is folded at this point with value v.
+   [seen]: variables assigned so far or read by a kept assignment so far (read_so_far and the
+   assignment counts of the patch); [rest]: variables assigned later in the initial part *)
+Definition fold_value (r : rule) (bv seen rest : list var) (F : smap) (g : gassign) : option expr :=
   if mem_var (ga_var g) bv then None
   else match ga_cond g, ga_rhs g with
        | CTrue, RChoice [(_, e)] =>
            let v := subst_e F e in
-           if negb strict || disjointb (evars v) bv then Some v else None
+           match r with
+           | ROld => Some v
+           | RCur => if disjointb (evars v) bv then Some v else None
+           | RFix => if disjointb (evars v) bv && negb (mem_var (ga_var g) seen) && negb (mem_var (ga_var g) rest)
+                        && disjointb (evars v) rest then Some v else None
+           end
        | _, _ => None
        end.
 
+Definition seen_kept (g : gassign) (seen : list var) : list var :=
+  ga_var g :: ga_default g :: ga_reads g ++ seen.
+
 (* returns the final map of fixed constants (latest first) and the kept assignments *)
-Fixpoint scan (strict : bool) (bv : list var) (F : smap) (l : list gassign) : smap * list gassign :=
+Fixpoint scan (r : rule) (bv seen : list var) (F : smap) (l : list gassign) : smap * list gassign :=
   match l with
   | [] => (F, [])
   | g :: l' =>
-      match fold_value strict bv F g with
-      | Some v => scan strict bv ((ga_var g, v) :: F) l'
-      | None => let '(F', k) := scan strict bv F l' in (F', g :: k)
+      match fold_value r bv seen (map ga_var l') F g with
+      | Some v => scan r bv (ga_var g :: seen) ((ga_var g, v) :: F) l'
+      | None => let '(F', k) := scan r bv (seen_kept g seen) F l' in (F', g :: k)
       end
   end.
 
@@ -61,17 +79,19 @@ Fixpoint dedup (l : list var) : list var :=
 Definition others (bv : list var) (kept : list gassign) : list var :=
   dedup (filter (fun x => negb (mem_var x bv)) (map ga_var kept)).
 
-Definition constants_gen (strict : bool) (fp : flatprog) : flatprog :=
+Definition constants_gen (r : rule) (fp : flatprog) : flatprog :=
   let bv := body_vars fp in
-  let '(F, kept) := scan strict bv [] (fp_init fp) in
+  let '(F, kept) := scan r bv [] [] (fp_init fp) in
   {| fp_init := map (subst_ga F) kept;
      fp_body := map (subst_ga F) (fp_body fp) ++ map self_assign (others bv kept) |}.
 
-Definition constants : flatprog -> flatprog := constants_gen true.
-Definition constants_old : flatprog -> flatprog := constants_gen false.
+Definition constants : flatprog -> flatprog := constants_gen RCur.
+Definition constants_old : flatprog -> flatprog := constants_gen ROld.
+Definition constants_fix : flatprog -> flatprog := constants_gen RFix.
 
 (* the fixed constants with their folded expressions, and the folded variables *)
-Definition fixed (fp : flatprog) : smap := fst (scan true (body_vars fp) [] (fp_init fp)).
+Definition fixed_gen (r : rule) (fp : flatprog) : smap := fst (scan r (body_vars fp) [] [] (fp_init fp)).
+Definition fixed : flatprog -> smap := fixed_gen RCur.
 Definition folded (fp : flatprog) : list var := sdom (fixed fp).
 
 (* ---- the hypothesis the proof forces ---- *)
@@ -83,23 +103,25 @@ Definition fresh_for (F : smap) (x : var) : bool :=
   negb (mem_var x (sdom F)) && forallb (fun ke => negb (mem_var x (vars_of (snd ke)))) F.
 
 (* [rd]: variables read by the kept assignments met so far *)
-Fixpoint scan_ok (bv : list var) (F : smap) (rd : list var) (l : list gassign) : bool :=
+Fixpoint scan_ok (r : rule) (bv seen : list var) (F : smap) (rd : list var) (l : list gassign) : bool :=
   match l with
   | [] => true
   | g :: l' =>
-      match fold_value true bv F g with
-      | Some v => prob_one g && negb (mem_var (ga_var g) rd) && scan_ok bv ((ga_var g, v) :: F) rd l'
+      match fold_value r bv seen (map ga_var l') F g with
+      | Some v => prob_one g && negb (mem_var (ga_var g) rd)
+                  && scan_ok r bv (ga_var g :: seen) ((ga_var g, v) :: F) rd l'
       | None => fresh_for F (ga_var g) && negb (mem_var (ga_default g) (sdom F))
-                && scan_ok bv F (ga_reads g ++ rd) l'
+                && scan_ok r bv (seen_kept g seen) F (ga_reads g ++ rd) l'
       end
   end.
 
 Definition closed_map (F : smap) : bool := forallb (fun ke => disjointb (vars_of (snd ke)) (sdom F)) F.
 
-Definition constants_ok (fp : flatprog) : bool :=
-  scan_ok (body_vars fp) [] [] (fp_init fp)
-  && closed_map (fixed fp)
-  && forallb (fun g => negb (mem_var (ga_default g) (folded fp))) (fp_body fp).
+Definition constants_ok_gen (r : rule) (fp : flatprog) : bool :=
+  scan_ok r (body_vars fp) [] [] [] (fp_init fp)
+  && closed_map (fixed_gen r fp)
+  && forallb (fun g => negb (mem_var (ga_default g) (sdom (fixed_gen r fp)))) (fp_body fp).
+Definition constants_ok : flatprog -> bool := constants_ok_gen RCur.
 
 (* ---- proofs ---- *)
 (* s : state of the original program, s' : state of the transformed program *)
@@ -156,51 +178,55 @@ Proof.
   - rewrite (upd_other _ _ _ _ E). apply HS.
 Qed.
 
-Lemma fold_value_shape strict bv F g v :
-  fold_value strict bv F g = Some v ->
+Lemma fold_value_shape r bv seen rest F g v :
+  fold_value r bv seen rest F g = Some v ->
   mem_var (ga_var g) bv = false /\ ga_cond g = CTrue /\
   exists p e, ga_rhs g = RChoice [(p, e)] /\ v = subst_e F e /\
-              (strict = true -> disjointb (evars v) bv = true).
+              (strict r = true -> disjointb (evars v) bv = true).
 Proof.
   unfold fold_value. destruct (mem_var (ga_var g) bv); [discriminate|].
   destruct (ga_cond g); try discriminate. destruct (ga_rhs g) as [alts|]; [|discriminate].
   destruct alts as [|[p e] [|]]; try discriminate.
-  destruct (negb strict || disjointb (evars (subst_e F e)) bv) eqn:Ed; [|discriminate].
-  intros H. injection H as <-. split; [reflexivity|]. split; [reflexivity|].
-  exists p, e. split; [reflexivity|]. split; [reflexivity|].
-  intros ->. exact Ed.
+  intros H. split; [reflexivity|]. split; [reflexivity|]. exists p, e. split; [reflexivity|].
+  destruct r.
+  - injection H as <-. split; [reflexivity | discriminate].
+  - destruct (disjointb (evars (subst_e F e)) bv) eqn:Ed; [|discriminate]. injection H as <-.
+    split; [reflexivity | intros _; exact Ed].
+  - destruct (disjointb (evars (subst_e F e)) bv) eqn:Ed; [|discriminate]. cbn [andb] in H.
+    destruct (negb (mem_var (ga_var g) seen) && negb (mem_var (ga_var g) rest) && disjointb (evars (subst_e F e)) rest); [|discriminate].
+    injection H as <-. split; [reflexivity | intros _; exact Ed].
 Qed.
 
 (* variables read by the kept assignments are not folded (again) later *)
-Lemma scan_stable bv l : forall F rd F' kept,
-  scan true bv F l = (F', kept) -> scan_ok bv F rd l = true ->
+Lemma scan_stable r bv l : forall seen F rd F' kept,
+  scan r bv seen F l = (F', kept) -> scan_ok r bv seen F rd l = true ->
   forall x, In x rd -> slookup F' x = slookup F x.
 Proof.
-  induction l as [|g l IH]; cbn [scan scan_ok]; intros F rd F' kept Hs Hok x Hx.
+  induction l as [|g l IH]; cbn [scan scan_ok]; intros seen F rd F' kept Hs Hok x Hx.
   - injection Hs as <- _. reflexivity.
-  - destruct (fold_value true bv F g) as [v|] eqn:Ef.
+  - destruct (fold_value r bv seen (map ga_var l) F g) as [v|] eqn:Ef.
     + apply andb_true_iff in Hok. destruct Hok as [Hok Hl]. apply andb_true_iff in Hok. destruct Hok as [_ Hrd].
-      rewrite (IH _ _ _ _ Hs Hl x Hx). cbn [slookup].
+      rewrite (IH _ _ _ _ _ Hs Hl x Hx). cbn [slookup].
       destruct (var_eqb x (ga_var g)) eqn:E; [|reflexivity].
       apply String.eqb_eq in E. subst. rewrite (mem_var_In _ _ Hx) in Hrd. discriminate.
-    + destruct (scan true bv F l) as [F1 k1] eqn:Es. injection Hs as <- _.
+    + destruct (scan r bv (seen_kept g seen) F l) as [F1 k1] eqn:Es. injection Hs as <- _.
       apply andb_true_iff in Hok. destruct Hok as [_ Hl].
-      apply (IH _ _ _ _ Es Hl x). apply in_or_app; right; exact Hx.
+      apply (IH _ _ _ _ _ Es Hl x). apply in_or_app; right; exact Hx.
 Qed.
 
 (* fixed variables are not loop variables, fixed values do not depend on loop variables *)
 Definition body_indep (bv : list var) (F : smap) : Prop :=
   forall k v, In (k, v) F -> mem_var k bv = false /\ disjointb (evars v) bv = true.
-Lemma scan_body_indep bv l : forall F F' kept,
-  scan true bv F l = (F', kept) -> body_indep bv F -> body_indep bv F'.
+Lemma scan_body_indep r bv l : strict r = true -> forall seen F F' kept,
+  scan r bv seen F l = (F', kept) -> body_indep bv F -> body_indep bv F'.
 Proof.
-  induction l as [|g l IH]; cbn [scan]; intros F F' kept Hs HF.
+  intros Hr. induction l as [|g l IH]; cbn [scan]; intros seen F F' kept Hs HF.
   - injection Hs as <- _. exact HF.
-  - destruct (fold_value true bv F g) as [v|] eqn:Ef.
-    + apply (IH _ _ _ Hs). intros k v0 [Hin|Hin]; [|apply HF; exact Hin].
-      injection Hin as <- <-. destruct (fold_value_shape _ _ _ _ _ Ef) as [Hb [_ [p [e [_ [-> Hd]]]]]].
-      split; [exact Hb | apply Hd; reflexivity].
-    + destruct (scan true bv F l) as [F1 k1] eqn:Es. injection Hs as <- _. eapply IH; eauto.
+  - destruct (fold_value r bv seen (map ga_var l) F g) as [v|] eqn:Ef.
+    + apply (IH _ _ _ _ Hs). intros k v0 [Hin|Hin]; [|apply HF; exact Hin].
+      injection Hin as <- <-. destruct (fold_value_shape _ _ _ _ _ _ _ Ef) as [Hb [_ [p [e [_ [-> Hd]]]]]].
+      split; [exact Hb | apply Hd; exact Hr].
+    + destruct (scan r bv (seen_kept g seen) F l) as [F1 k1] eqn:Es. injection Hs as <- _. eapply IH; eauto.
 Qed.
 
 Section Constants.
@@ -208,35 +234,35 @@ Section Constants.
 
   (* initial block: the original block from s against the kept, substituted assignments
      from s' *)
-  Lemma init_sim bv l : forall F rd F' kept,
-    scan true bv F l = (F', kept) -> scan_ok bv F rd l = true ->
+  Lemma init_sim r bv l : forall seen F rd F' kept,
+    scan r bv seen F l = (F', kept) -> scan_ok r bv seen F rd l = true ->
     forall s s', Sub F s s' ->
     coupled (Sub F') (exec_gas law l s) (exec_gas law (map (subst_ga F') kept) s').
   Proof.
-    induction l as [|g l IH]; cbn [scan scan_ok]; intros F rd F' kept Hs Hok s s' HS.
+    induction l as [|g l IH]; cbn [scan scan_ok]; intros seen F rd F' kept Hs Hok s s' HS.
     - injection Hs as <- <-. cbn [map exec_gas]. apply coupled_ret. exact HS.
-    - destruct (fold_value true bv F g) as [v|] eqn:Ef.
+    - destruct (fold_value r bv seen (map ga_var l) F g) as [v|] eqn:Ef.
       + (* folded *)
         apply andb_true_iff in Hok. destruct Hok as [Hok Hl]. apply andb_true_iff in Hok. destruct Hok as [Hp _].
-        destruct (fold_value_shape _ _ _ _ _ Ef) as [_ [Hc [p [e [Hr [-> _]]]]]].
+        destruct (fold_value_shape _ _ _ _ _ _ _ Ef) as [_ [Hc [p [e [Hr [-> _]]]]]].
         cbn [exec_gas]. unfold exec_ga. rewrite Hc, Hr. cbn [holds sample map fst snd bind ret].
         unfold prob_one in Hp. rewrite Hr in Hp. destruct p as [q| | | |]; try discriminate.
         apply Qc_eqb_true in Hp. subst q. unfold ret, dscale. cbn [eval map fst snd app]. cbn [bind].
         apply coupled_one_l; [ring|].
-        apply (IH _ _ _ _ Hs Hl). apply Sub_fold. exact HS.
+        apply (IH _ _ _ _ _ Hs Hl). apply Sub_fold. exact HS.
       + (* kept *)
-        destruct (scan true bv F l) as [F1 k1] eqn:Es. injection Hs as <- <-.
+        destruct (scan r bv (seen_kept g seen) F l) as [F1 k1] eqn:Es. injection Hs as <- <-.
         apply andb_true_iff in Hok. destruct Hok as [Hok Hl]. apply andb_true_iff in Hok. destruct Hok as [Hfr Hdef].
         destruct (fresh_for_spec _ _ Hfr) as [Hx Hvals].
         cbn [map exec_gas]. apply (coupled_bind (Sub F)).
         * apply exec_ga_subst.
           -- intros x Hx0. unfold agree.
-             rewrite (scan_stable _ _ _ _ _ _ Es Hl x) by (apply in_or_app; left; exact Hx0). apply HS.
+             rewrite (scan_stable _ _ _ _ _ _ _ _ Es Hl x) by (apply in_or_app; left; exact Hx0). apply HS.
           -- specialize (HS (ga_default g)). unfold agree in HS. rewrite slookup_none in HS; [exact HS|].
              destruct (mem_var (ga_default g) (sdom F)); [discriminate | reflexivity].
           -- intros val. apply Sub_upd; [exact HS | exact Hx|].
              intros k v Hin. apply eval_upd_indep. apply (Hvals k v Hin).
-        * intros t t' Ht. apply (IH _ _ _ _ Es Hl). exact Ht.
+        * intros t t' Ht. apply (IH _ _ _ _ _ Es Hl). exact Ht.
   Qed.
 
   Lemma exec_self k s : exec_ga law (self_assign k) s = [(mkq 1 1 * 1, upd s k (s k))].
@@ -280,18 +306,18 @@ Section Constants.
       + intros t t' Ht. apply IH; [|exact Ht]. intros g0 Hg0. apply Hl. right; exact Hg0.
   Qed.
 
-  Theorem constants_coupled fp : constants_ok fp = true ->
-    forall n s0, coupled (Sub (fixed fp)) (frun law fp n s0) (frun law (constants fp) n s0).
+  Theorem constants_gen_coupled r fp : strict r = true -> constants_ok_gen r fp = true ->
+    forall n s0, coupled (Sub (fixed_gen r fp)) (frun law fp n s0) (frun law (constants_gen r fp) n s0).
   Proof.
-    unfold constants_ok, constants, constants_gen, folded, fixed. intros Hok.
+    unfold constants_ok_gen, constants_gen, fixed_gen. intros Hr Hok.
     apply andb_true_iff in Hok. destruct Hok as [Hok Hdef]. apply andb_true_iff in Hok. destruct Hok as [Hscan _].
     set (bv := body_vars fp) in *.
-    destruct (scan true bv [] (fp_init fp)) as [F kept] eqn:Es. cbn [fst] in *.
+    destruct (scan r bv [] [] (fp_init fp)) as [F kept] eqn:Es. cbn [fst] in *.
     intros n s0. induction n as [|n IH]; cbn [frun fp_init fp_body].
-    - apply (init_sim bv _ _ _ _ _ Es Hscan s0 s0). apply Sub_nil.
+    - apply (init_sim r bv _ _ _ _ _ _ Es Hscan s0 s0). apply Sub_nil.
     - apply (coupled_bind (Sub F)); [exact IH|].
       intros s s' HS. unfold fstep. cbn [fp_body]. apply (body_sim bv); [| |exact HS].
-      + apply (scan_body_indep bv _ _ _ _ Es). intros k v [].
+      + apply (scan_body_indep r bv _ Hr _ _ _ _ Es). intros k v [].
       + intros g Hg. split.
         * unfold bv, body_vars. apply in_map. exact Hg.
         * rewrite forallb_forall in Hdef. specialize (Hdef g Hg). cbn beta in Hdef.
@@ -303,33 +329,56 @@ Section Constants.
   Definition ignores (vs : list var) (f : state -> Qc) : Prop :=
     forall s s', (forall x, mem_var x vs = false -> s x = s' x) -> f s = f s'.
 
-  Theorem constants_preserves fp : constants_ok fp = true ->
-    forall n s0 f, ignores (folded fp) f ->
-    E (frun law (constants fp) n s0) f = E (frun law fp n s0) f.
+  Theorem constants_gen_preserves r fp : strict r = true -> constants_ok_gen r fp = true ->
+    forall n s0 f, ignores (sdom (fixed_gen r fp)) f ->
+    E (frun law (constants_gen r fp) n s0) f = E (frun law fp n s0) f.
   Proof.
-    intros Hok n s0 f Hf. symmetry.
-    apply (coupled_E _ _ _ _ _ (constants_coupled fp Hok n s0)).
+    intros Hr Hok n s0 f Hf. symmetry.
+    apply (coupled_E _ _ _ _ _ (constants_gen_coupled r fp Hr Hok n s0)).
     intros s s' HS. apply Hf. intros x Hx. specialize (HS x). unfold agree in HS.
-    unfold folded in Hx. rewrite (slookup_none _ _ Hx) in HS. symmetry. exact HS.
+    rewrite (slookup_none _ _ Hx) in HS. symmetry. exact HS.
   Qed.
 
   (* the invariant that makes the substitution right *)
-  Theorem constants_invariant fp : constants_ok fp = true ->
+  Theorem constants_gen_invariant r fp : strict r = true -> constants_ok_gen r fp = true ->
     forall n s0 s, supp (frun law fp n s0) s ->
-    forall k v, slookup (fixed fp) k = Some v -> s k = eval v s.
+    forall k v, slookup (fixed_gen r fp) k = Some v -> s k = eval v s.
   Proof.
-    intros Hok n s0 s Hs k v Hk.
-    destruct (coupled_supp_l _ _ _ _ (constants_coupled fp Hok n s0) Hs) as [s' [_ HS]].
+    intros Hr Hok n s0 s Hs k v Hk.
+    destruct (coupled_supp_l _ _ _ _ (constants_gen_coupled r fp Hr Hok n s0) Hs) as [s' [_ HS]].
     pose proof (HS k) as Hk'. unfold agree in Hk'. rewrite Hk in Hk'. rewrite <- Hk'.
-    unfold constants_ok in Hok. apply andb_true_iff in Hok. destruct Hok as [Hok _].
+    unfold constants_ok_gen in Hok. apply andb_true_iff in Hok. destruct Hok as [Hok _].
     apply andb_true_iff in Hok. destruct Hok as [_ Hcl].
     unfold closed_map in Hcl. rewrite forallb_forall in Hcl.
     specialize (Hcl (k, v) (slookup_some_in _ _ _ Hk)). cbn [snd] in Hcl.
     apply eval_ext. intros x Hx. specialize (HS x). unfold agree in HS.
     rewrite slookup_none in HS; [exact HS|].
-    destruct (mem_var x (sdom (fixed fp))) eqn:Em; [|reflexivity].
+    destruct (mem_var x (sdom (fixed_gen r fp))) eqn:Em; [|reflexivity].
     exfalso. exact (disjointb_spec _ _ Hcl x Hx (mem_var_true _ _ Em)).
   Qed.
+
+  (* the code as it is now *)
+  Theorem constants_coupled fp : constants_ok fp = true ->
+    forall n s0, coupled (Sub (fixed fp)) (frun law fp n s0) (frun law (constants fp) n s0).
+  Proof. apply (constants_gen_coupled RCur fp eq_refl). Qed.
+  Theorem constants_preserves fp : constants_ok fp = true ->
+    forall n s0 f, ignores (folded fp) f ->
+    E (frun law (constants fp) n s0) f = E (frun law fp n s0) f.
+  Proof. apply (constants_gen_preserves RCur fp eq_refl). Qed.
+  Theorem constants_invariant fp : constants_ok fp = true ->
+    forall n s0 s, supp (frun law fp n s0) s ->
+    forall k v, slookup (fixed fp) k = Some v -> s k = eval v s.
+  Proof. apply (constants_gen_invariant RCur fp eq_refl). Qed.
+
+  (* the rule of the proposed patch *)
+  Theorem constants_fix_preserves fp : constants_ok_gen RFix fp = true ->
+    forall n s0 f, ignores (sdom (fixed_gen RFix fp)) f ->
+    E (frun law (constants_fix fp) n s0) f = E (frun law fp n s0) f.
+  Proof. apply (constants_gen_preserves RFix fp eq_refl). Qed.
+  Theorem constants_fix_invariant fp : constants_ok_gen RFix fp = true ->
+    forall n s0 s, supp (frun law fp n s0) s ->
+    forall k v, slookup (fixed_gen RFix fp) k = Some v -> s k = eval v s.
+  Proof. apply (constants_gen_invariant RFix fp eq_refl). Qed.
 End Constants.
 
 (* ---- the pre-repair rule is unsound ---- *)
@@ -343,7 +392,7 @@ Definition refute_prog : flatprog :=
 Definition obs_x : state -> Qc := fun s => s "x".
 
 Theorem constants_old_refuted :
-  exists fp n s0 f, ignores (sdom (fst (scan false (body_vars fp) [] (fp_init fp)))) f /\
+  exists fp n s0 f, ignores (sdom (fixed_gen ROld fp)) f /\
     E (frun no_law (constants_old fp) n s0) f <> E (frun no_law fp n s0) f.
 Proof.
   exists refute_prog, 2%nat, st0, obs_x. split.
@@ -429,13 +478,16 @@ Fixpoint perm_eq (l1 l2 : list gassign) : bool :=
 (* Assignment.subs also substitutes the DEFAULT variable; the result is a variable only if no
    default is a folded constant — otherwise the output is not a flat program of the model
    (this only happens outside [constants_ok]) *)
-Definition constants_in_model (fp : flatprog) : bool :=
-  let '(F, kept) := scan true (body_vars fp) [] (fp_init fp) in
+Definition constants_in_model_gen (r : rule) (fp : flatprog) : bool :=
+  let '(F, kept) := scan r (body_vars fp) [] [] (fp_init fp) in
   forallb (fun g => negb (mem_var (ga_default g) (sdom F))) (kept ++ fp_body fp).
 
-Definition constants_matches (fp out : flatprog) : bool :=
-  let m := constants fp in
+Definition constants_matches_gen (r : rule) (fp out : flatprog) : bool :=
+  let m := constants_gen r fp in
   let nb := List.length (fp_body fp) in
   list_eqb ga_eq_poly (fp_init m) (fp_init out)
   && list_eqb ga_eq_poly (firstn nb (fp_body m)) (firstn nb (fp_body out))
   && perm_eq (skipn nb (fp_body m)) (skipn nb (fp_body out)).
+
+Definition constants_in_model : flatprog -> bool := constants_in_model_gen RCur.
+Definition constants_matches : flatprog -> flatprog -> bool := constants_matches_gen RCur.
